@@ -606,7 +606,7 @@ Add one or more members to the set. If the set does not exist, it's created.`,
 		{
 			Command:           "scard",
 			Module:            constants.SetModule,
-			Categories:        []string{constants.SetCategory, constants.WriteCategory, constants.FastCategory},
+			Categories:        []string{constants.SetCategory, constants.ReadCategory, constants.FastCategory},
 			Description:       "(SCARD key) Returns the cardinality of the set.",
 			Sync:              false,
 			KeyExtractionFunc: scardKeyFunc,
@@ -636,7 +636,7 @@ Returns the cardinality of the new set.`,
 		{
 			Command:           "sinter",
 			Module:            constants.SetModule,
-			Categories:        []string{constants.SetCategory, constants.WriteCategory, constants.SlowCategory},
+			Categories:        []string{constants.SetCategory, constants.ReadCategory, constants.SlowCategory},
 			Description:       "(SINTER key [key...]) Returns the intersection of multiple sets.",
 			Sync:              false,
 			KeyExtractionFunc: sinterKeyFunc,
